@@ -145,7 +145,7 @@ theorem logInv_step (s : State) (e : Ev) (s' : State) (h : LogInv ts s)
           subst hji
           refine ⟨t, k + 1, h1, by simp [upd_same], ?_⟩
           show s.log ++ [l] = _
-          rw [g3, List.take_succ, hl]
+          rw [g3, List.take_add_one, hl]
           simp
         · intro j k' hj
           by_cases hji : j = i
